@@ -37,12 +37,26 @@ def payload_marks(ctx, buf, pay):
     return [ext64(ctx.init_bytes(buf, 0, pay.size()), pay.signed())]
 
 
+def pay_param(pay):
+    """obligation parameter that carries a payload built from the function's parameter `x`"""
+    return ('buf', S('i32'), False) if pay.kind == 'ptr' else ('scalar', pay.src())
+
+
+def pay_expected(ctx, xs, pay):
+    """the mark a payload arm prints: the scalar itself, or (pointer payload) the pointee read through the pointer"""
+    if pay.kind == 'ptr':
+        return z3.SignExt(32, ctx.init_bytes(ctx.bufs[0], 0, 4))
+    return ext64(xs[0], pay.signed())
+
+
 def payload_stmts(pay, v, via):
     """Capy statements that mark the payload bound to `v` (variant types need a cast to their payload type first)"""
     if pay is None:
         return ''
     if pay.kind == 'struct':
         return ' mark(u64.(%s.a)); mark(u64.(%s.b));' % (v, v)
+    if pay.kind == 'ptr':
+        return ' mark(u64.((%s).(%s)^));' % (pay.src(), v)
     if via:
         return ' mark(u64.(%s.(%s)));' % (pay.src(), v)
     return ' mark(u64.(%s));' % v
@@ -134,7 +148,9 @@ def roundtrip_obs(rnd, nenums):
     obs = []; decls = []
     shapes = [[('Point', None, None), ('Circle', S('i32'), None), ('Line', None, 1), ('Square', S('i32'), 2)],
               [('A', S('u8'), None), ('B', None, 0), ('C', S('u8'), None)],
-              [('A', None, 2), ('B', S('i64'), None), ('C', None, 3), ('D', S('u8'), None), ('E', None, 0)]]
+              [('A', None, 2), ('B', S('i64'), None), ('C', None, 3), ('D', S('u8'), None), ('E', None, 0)],
+              # a pointer payload: the union is still a tagged union (only OPTIONALS of pointers are tag-less)
+              [('P', Ptr(S('i32')), None), ('Q', S('u8'), None), ('R', None, None)]]
     for i in range(nenums):
         n = rnd.randint(2, 6)
         vs = []
@@ -161,13 +177,13 @@ def roundtrip_obs(rnd, nenums):
                 params = []
             else:
                 src = '%s :: (x: %s) { e : %s = %s.%s.(x); switch v in e { %s } %s }' % (name, pay.src(), en.name, en.name, vn, arms, others)
-                params = [('scalar', pay.src())]
+                params = [pay_param(pay)]
 
             def post(ctx, xs, k=k, pay=pay):
                 got = ctx.marks()
                 if ctx.status != 'ret':
                     return [('a value built as a declared variant never aborts the switch', z3.BoolVal(False))]
-                exp = [k + 1] + ([ext64(xs[0], pay.signed())] if pay is not None else [])
+                exp = [k + 1] + ([pay_expected(ctx, xs, pay)] if pay is not None else [])
                 return [('the variant that was built runs exactly its own arm with its payload, and is no other variant', marks_eq(got, exp))]
             ob = Ob(name, src, params, None, post, {'kind': 'switch-roundtrip', 'sum': 'enum'}, event_funcs={'mark'})
             ob.handles_abort = True
@@ -177,7 +193,7 @@ def roundtrip_obs(rnd, nenums):
         if si < 6:
             for k, (vn, pay, _) in enumerate(vs):
                 build = '%s.%s' % (en.name, vn) + ('.(x)' if pay is not None else '')
-                params = [('scalar', pay.src())] if pay is not None else []
+                params = [pay_param(pay)] if pay is not None else []
                 psig = 'x: %s' % pay.src() if pay is not None else ''
                 for wrap, wty, other in (('opt', '?%s' % en.name, 'nil => { mark(77); }'), ('err', '%s!u16' % en.name, 'u16 => { mark(78); }'),
                                          ('ok', 'str!%s' % en.name, 'str => { mark(79); }')):
@@ -189,7 +205,7 @@ def roundtrip_obs(rnd, nenums):
                         got = ctx.marks()
                         if ctx.status != 'ret':
                             return [('a value built as a declared variant never aborts the switch', z3.BoolVal(False))]
-                        exp = [k + 1] + ([ext64(xs[0], pay.signed())] if pay is not None else [])
+                        exp = [k + 1] + ([pay_expected(ctx, xs, pay)] if pay is not None else [])
                         return [('a variant returned through an optional / error union of its enum is still that variant', marks_eq(got, exp))]
                     ob = Ob(name, src, params, None, wpost, {'kind': 'switch-roundtrip-wrapped', 'sum': 'enum', 'through': wrap}, event_funcs={'mark'})
                     ob.handles_abort = True
@@ -202,13 +218,13 @@ def roundtrip_obs(rnd, nenums):
             if pay is None:
                 src = '%s :: () { e : %s = %s.%s; switch v in e { %s } }' % (name, en.name, en.name, vn, sub_arms); params = []
             else:
-                src = '%s :: (x: %s) { e : %s = %s.%s.(x); switch v in e { %s } }' % (name, pay.src(), en.name, en.name, vn, sub_arms); params = [('scalar', pay.src())]
+                src = '%s :: (x: %s) { e : %s = %s.%s.(x); switch v in e { %s } }' % (name, pay.src(), en.name, en.name, vn, sub_arms); params = [pay_param(pay)]
 
             def post2(ctx, xs, k=k, pay=pay, named=named):
                 got = ctx.marks()
                 if ctx.status != 'ret':
                     return [('a switch with a default arm never aborts', z3.BoolVal(False))]
-                exp = ([k + 1] + ([ext64(xs[0], pay.signed())] if pay is not None else [])) if k in named else [99]
+                exp = ([k + 1] + ([pay_expected(ctx, xs, pay)] if pay is not None else [])) if k in named else [99]
                 return [('the variant that was built runs its own arm, or the default arm when it is not named', marks_eq(got, exp))]
             ob = Ob(name, src, params, None, post2, {'kind': 'switch-roundtrip-default', 'sum': 'enum'}, event_funcs={'mark'})
             ob.handles_abort = True
